@@ -1,10 +1,13 @@
 SPECIFICATION Spec
 CONSTANTS
-  DSNames = {"empty", "tiny", "tiny2", "basic", "wrap", "long", "role250", "meta", "hist", "delta"}
+  DSNames = {"empty", "tiny", "tiny2", "basic", "wrap", "long", "kids", "role250", "meta", "hist", "delta"}
   Grans = {100, 1000, 1}
   Offs = {0, 300}
   DGrans = {1000, 1, 60000}
   Sizes = {"normal"}
+  Comps = {"raw", "zlib", "zlib0", "zlib9", "lz4", "lz4m"}
+  Packs = {"packed"}
+  XBlobs = {"none"}
   Full = FALSE
   ExportHist = FALSE
 INVARIANTS DecodedOK
